@@ -104,7 +104,7 @@ def run_one(job):
         a = subprocess.run("git -C %s apply %s.patch" % (wt, wt), shell=True, stdout=subprocess.PIPE, stderr=subprocess.STDOUT, text=True)
         if a.returncode != 0:
             return {"patch": patch, "property": prop, "status": "does-not-apply", "detail": a.stdout[-300:]}
-        env = dict(os.environ, VERIF_REPO=wt, VERIF_JOBS=os.environ.get("VERIF_JOBS", "6"))
+        env = dict(os.environ, VERIF_REPO=wt, VERIF_JOBS=os.environ.get("VERIF_JOBS", "6"), VERIF_EVIDENCE_DIR=wt + ".evidence")
         t0 = time.time()
         p = subprocess.run(["python3", os.path.join(ROOT, "check.py"), "run", prop, "quick"], env=env, cwd=ROOT, stdout=subprocess.PIPE,
                            stderr=subprocess.STDOUT, text=True, timeout=3600)
@@ -114,6 +114,7 @@ def run_one(job):
     finally:
         subprocess.run("git -C /repo worktree remove --force %s" % wt, shell=True, stdout=subprocess.DEVNULL, stderr=subprocess.DEVNULL)
         shutil.rmtree(wt, ignore_errors=True)
+        shutil.rmtree(wt + ".evidence", ignore_errors=True)
         try:
             os.unlink(wt + ".patch")
         except OSError:
